@@ -144,7 +144,7 @@ func Buildsim(repo string) (*Scratch, error) {
 	if err := copyTree(filepath.Join(s.Repo, "internal", "gontainer"), filepath.Join(s.Pristine, "internal", "gontainer"), false); err != nil {
 		return s, err
 	}
-	s.HelpersRep, err = instr.Run(instr.Options{Dir: s.Helpers, MapRange: true, SkipBroken: true, Env: GoEnv()})
+	s.HelpersRep, err = instr.Run(instr.Options{Dir: s.Helpers, MapRange: true, Sync: true, SkipBroken: true, Env: GoEnv()})
 	if err != nil {
 		return s, fmt.Errorf("instrumenting runtime module: %w", err)
 	}
@@ -184,4 +184,77 @@ func RebuildWorker(s *Scratch) error {
 		return err
 	}
 	return nil
+}
+
+// ProbeItem is one generated container to link into the probe.
+type ProbeItem struct {
+	Name  string
+	CType string
+	CCtor string
+}
+
+// Probe assembles and builds the engine-2 probe: fixture package, the generated containers of
+// gendir (rewritten: map ranges, world calls, sync -> simsync, a yield before every statement),
+// the runtime module (map ranges, sync -> simsync) and the scheduler. Packages that do not
+// compile are returned in broken (name -> first error) and left out.
+func Probe(s *Scratch, gendir string, items []ProbeItem, race bool) (bin string, broken map[string]string, rep *instr.Report, err error) {
+	pdir := filepath.Join(s.Dir, "probe")
+	_ = os.RemoveAll(pdir)
+	if err = copyTree(filepath.Join(VerifDir(), "probe"), pdir, true); err != nil {
+		return
+	}
+	if err = appendFile(filepath.Join(pdir, "go.mod"), "\nreplace "+HelpersMod+" => ../helpers\n"); err != nil {
+		return
+	}
+	for _, it := range items {
+		src := filepath.Join(gendir, it.Name, "container.go")
+		if _, e := os.Stat(src); e != nil {
+			continue
+		}
+		d := filepath.Join(pdir, "gen", it.Name)
+		if err = os.MkdirAll(d, 0755); err != nil {
+			return
+		}
+		b, _ := os.ReadFile(src)
+		if err = os.WriteFile(filepath.Join(d, "container.go"), b, 0644); err != nil {
+			return
+		}
+		cfg, _ := os.ReadFile(filepath.Join(gendir, it.Name, "cfg.json"))
+		reg := fmt.Sprintf("package %s\n\nimport \"verifprobe/rsim\"\n\nfunc init() {\n\trsim.Register(%q, func() rsim.Container { return %s() }, %q)\n}\n", it.Name, it.Name, it.CCtor, string(cfg))
+		if err = os.WriteFile(filepath.Join(d, "reg.go"), []byte(reg), 0644); err != nil {
+			return
+		}
+	}
+	rep, err = instr.Run(instr.Options{Dir: pdir, Patterns: []string{"./gen/..."}, MapRange: true, World: true, Sync: true, Yield: true, SkipBroken: true, Env: GoEnv(),
+		OnlyFiles: func(p string) bool { return strings.HasSuffix(p, "container.go") }})
+	if err != nil {
+		err = fmt.Errorf("instrumenting generated containers: %w", err)
+		return
+	}
+	broken = map[string]string{}
+	for pkg, errs := range rep.Broken {
+		name := filepath.Base(pkg)
+		broken[name] = strings.Join(errs, "\n")
+		_ = os.RemoveAll(filepath.Join(pdir, "gen", name))
+	}
+	var imports []string
+	for _, it := range items {
+		if _, e := os.Stat(filepath.Join(pdir, "gen", it.Name, "container.go")); e == nil {
+			imports = append(imports, fmt.Sprintf("\t_ \"verifprobe/gen/%s\"", it.Name))
+		}
+	}
+	main := "package main\n\nimport (\n\t\"verifprobe/rsim\"\n" + strings.Join(imports, "\n") + "\n)\n\nfunc main() { rsim.Main() }\n"
+	if err = os.WriteFile(filepath.Join(pdir, "main.go"), []byte(main), 0644); err != nil {
+		return
+	}
+	bin = filepath.Join(s.Dir, "probe.bin")
+	args := []string{"build", "-o", bin}
+	if race {
+		args = append(args, "-race")
+	}
+	args = append(args, ".")
+	if _, err = run(pdir, GoEnv(), "go", args...); err != nil {
+		err = fmt.Errorf("building the probe: %w", err)
+	}
+	return
 }
